@@ -157,11 +157,9 @@ func (x *c08Inst) sum(prefix []byte) error {
 		x.note('?')
 		return nil
 	}
-	pre := append(make([]byte, 0, len(prefix)+100), prefix...)
-	got := x.h.Sum(pre)
 	want := x.f.out(x.msg, x.f.size)
-	if !bytes.Equal(got[:min(len(prefix), len(got))], prefix) || !bytes.Equal(got[min(len(prefix), len(got)):], want) {
-		return fmt.Errorf("Sum(prefix %x) after %d bytes = %x, want prefix || %x", prefix, len(x.msg), got, want)
+	if _, err := sumInto(x.h, prefix, want); err != nil {
+		return fmt.Errorf("after %d bytes, want prefix || %x: %v", len(x.msg), want, err)
 	}
 	if x.h.Size() != x.f.size || x.h.BlockSize() != x.f.rate {
 		return fmt.Errorf("Size()/BlockSize() = %d/%d, want %d/%d", x.h.Size(), x.h.BlockSize(), x.f.size, x.f.rate)
@@ -661,6 +659,67 @@ func TestC08(t *testing.T) {
 	}
 	c.Exhaustive("Clone interleavings: {SHAKE128, SHAKE256, cSHAKE128, cSHAKE256} x clone position {0,1,rate/2,rate-1,rate,rate+3} x 6 advance orders (source first, clone first, alternating, far ahead, clone of clone, absorbing copies with different suffixes)", nInter)
 
+	// concurrency part: one-shot helpers and separate hash / ShakeHash objects from several goroutines at once
+	{
+		failure, calls, ks := concPart("C08", ev.Scale(4000, 30000), func(d *drbg, w int) []concJob {
+			var jobs []concJob
+			for i := 0; i < 8; i++ {
+				msg := d.bytes(d.intn(500))
+				outLen := 1 + d.intn(300)
+				switch i % 8 {
+				case 0:
+					jobs = append(jobs, concJob{name: fmt.Sprintf("Sum256(%d bytes)", len(msg)), run: func() []byte { s := sha3.Sum256(msg); return s[:] }, want: ref.SHA3(256, msg)})
+				case 1:
+					jobs = append(jobs, concJob{name: fmt.Sprintf("Sum512(%d bytes)", len(msg)), run: func() []byte { s := sha3.Sum512(msg); return s[:] }, want: ref.SHA3(512, msg)})
+				case 2:
+					jobs = append(jobs, concJob{name: fmt.Sprintf("ShakeSum128(%d out, %d bytes)", outLen, len(msg)), run: func() []byte { o := make([]byte, outLen); sha3.ShakeSum128(o, msg); return o }, want: ref.Shake(128, msg, outLen)})
+				case 3:
+					jobs = append(jobs, concJob{name: fmt.Sprintf("ShakeSum256(%d out, %d bytes)", outLen, len(msg)), run: func() []byte { o := make([]byte, outLen); sha3.ShakeSum256(o, msg); return o }, want: ref.Shake(256, msg, outLen)})
+				case 4, 5:
+					bits := 256 + 256*(i%2)
+					cut := d.intn(len(msg) + 1)
+					jobs = append(jobs, concJob{name: fmt.Sprintf("NewLegacyKeccak%d Write+Sum+Write+Sum (%d bytes)", bits, len(msg)), run: func() []byte {
+						h := sha3.NewLegacyKeccak256()
+						if bits == 512 {
+							h = sha3.NewLegacyKeccak512()
+						}
+						h.Write(msg[:cut])
+						h.Sum(nil)
+						h.Write(msg[cut:])
+						return h.Sum(nil)
+					}, want: ref.LegacyKeccak(bits, msg)})
+				default:
+					bits := 128 + 128*(i%2)
+					n, sc := d.bytes(d.intn(20)), d.bytes(d.intn(40))
+					want := ref.CShake(bits, n, sc, msg, outLen)
+					want = append(append([]byte{}, want...), want...)
+					jobs = append(jobs, concJob{name: fmt.Sprintf("NewCShake%d(N %d bytes, S %d bytes) Write(%d) Clone, Read(%d) on both", bits, len(n), len(sc), len(msg), outLen), run: func() []byte {
+						h := sha3.NewCShake128(n, sc)
+						if bits == 256 {
+							h = sha3.NewCShake256(n, sc)
+						}
+						h.Write(msg)
+						cl := h.Clone()
+						o1, o2 := make([]byte, outLen), make([]byte, outLen)
+						h.Read(o1)
+						cl.Read(o2)
+						return append(o1, o2...)
+					}, want: want})
+				}
+			}
+			return jobs
+		})
+		if failure != "" {
+			what := "concurrent use of separate objects / one-shot helpers: " + failure
+			c.Violation(what, "")
+			t.Fatalf("VF-VIOLATION: property=C08 %s", what)
+		}
+		for _, k := range ks {
+			c.Case(true, fmt.Sprintf("concurrent|k=%d", k), fmt.Sprintf("concurrency:k=%d", k))
+		}
+		c.ClassN("concurrency:calls", calls)
+	}
+	flushSumLayouts(c)
 	switch n, err := py.run(); {
 	case err == nil:
 		c.Oracle("python3 hashlib sha3_*/shake_* (batched differential of the reference on generated inputs)")
